@@ -461,7 +461,10 @@ def eval_c10(ctx, tr, fs, finished):
             if x.outcome == 'cancelled':
                 timed_out = True
                 ctx.witness('timeout fired')
-                ctx.check('C10.cancelled_at_deadline', x.t == e.t + T, h=e.h, why='cancellation instant != enter + T')
+                # the cancellation arrives when the handler's clean-up starts (if it has any), not when the clean-up has finished
+                cl_ = next((r for r in tr.recs if r.kind == 'CLEANUP' and r.h == e.h), None)
+                t_cancel = cl_.t if cl_ is not None else x.t
+                ctx.check('C10.cancelled_at_deadline', t_cancel == e.t + T, h=e.h, why='cancellation instant != enter + T')
                 later = [r for r in tr.recs if r.seq > x.seq and (r.f.get('h') == e.h or r.f.get('by') == e.h or r.f.get('caller') == e.h)]
                 ctx.check('C10.stops_executing', not later, h=e.h)
                 ctx.check('C10.timeout_error', len(res) == 1 and res[0][2] == 'error' and res[0][4] == 'TimeoutError', h=e.h, got=res)
